@@ -13,7 +13,8 @@ from .c13 import _names, job_env  # same worker modes (bounds-checked numba by d
 
 PROP = 'C14'
 RULE = ('every public indicator with a `sequential` argument x (default + non-default parameter sets, every source type) x input '
-        'lengths {60, 239, 240, 241, 400, 1000}; distinct = distinct (indicator, parameter set, length); non-trivial = the '
+        'lengths {60, 239, 240, 241, 400, 1000}; every call gets a private copy of the pristine series, which must come back '
+        'unmodified; distinct = distinct (indicator, parameter set, length); non-trivial = the '
         'sequential call returned.')
 ASSUMPTIONS = ['warm-up window = get_config("env.data.warmup_candles_num") read in a fresh worker (240)',
                'comparison NaN-aware; last value vs non-sequential on the same input: relative 1e-12; trailing-window comparison: relative 1e-9 '
@@ -56,19 +57,31 @@ def run_job(job):
             for n in job['lengths']:
                 X = indlib.series(rng.choice(job['kinds']), n, rng.randrange(1 << 30))
                 X2 = indlib.series('walk', n, rng.randrange(1 << 30))
+                # every call gets private copies of the pristine series; the copies are compared afterwards (an indicator that
+                # writes into its input would otherwise feed its own output to the next call - or to the caller's strategy)
+                Xa, X2a = X.copy(), X2.copy()
                 try:
-                    seq = indlib.fields(indlib.call(name, f, sig, X, kw, True, X2))
+                    seq = indlib.fields(indlib.call(name, f, sig, Xa, kw, True, X2a))
+                    seq = {k_: (np.array(v_, copy=True) if isinstance(v_, np.ndarray) else v_) for k_, v_ in seq.items()}
                 except Exception as ex:
                     cnt['sequential_raises'] = cnt.get('sequential_raises', 0) + 1
                     continue
                 checked = True
                 sigs.append(repr((name, pi, n)))
+                cnt['input_unmodified_checks'] = cnt.get('input_unmodified_checks', 0) + 1
+                if not (np.array_equal(Xa, X, equal_nan=True) and np.array_equal(X2a, X2, equal_nan=True)):
+                    bad(f'input_modified:{name}', f'{name}({kw}, sequential=True) wrote into the candle array it was given '
+                        f'({int((Xa != X).sum())} cells differ)', params=kw, n=n)
+                Xb, X2b = X.copy(), X2.copy()
                 try:
-                    single = indlib.fields(indlib.call(name, f, sig, X, kw, False, X2))
+                    single = indlib.fields(indlib.call(name, f, sig, Xb, kw, False, X2b))
                 except Exception as ex:
                     bad(f'single_raises:{name}', f'{name}({kw}) sequential works on {n} candles, non-sequential raises {ex!r}',
                         params=kw, n=n)
                     continue
+                if not (np.array_equal(Xb, X, equal_nan=True) and np.array_equal(X2b, X2, equal_nan=True)):
+                    bad(f'input_modified:{name}', f'{name}({kw}, sequential=False) wrote into the candle array it was given',
+                        params=kw, n=n)
                 if n > W:
                     try:
                         tail = indlib.fields(indlib.call(name, f, sig, X[-W:].copy(), kw, True, X2[-W:].copy()))
